@@ -116,9 +116,16 @@ func oracleC08(f *sessionFam, w *World, res *Result) []Violation {
 				if closed && closeEv[0].T < f.endAt {
 					l.add("failed-candidate-keeps-session", closeEv[0].S, fmt.Sprintf("%s [%s]: a misbehaving candidate (%s) cost the session: closed with %q", a, ctx, candScript(sp.Cand), closeEv[0].S))
 				}
-				if f.ended && !closed {
+				// (the harness itself closes every connection after the end snapshot: only a close before it counts)
+				if f.ended && readyOf(f.snap[a]) == "open" {
 					ends := w.evs(a, "c-cand-end", "c-cand-disconnect")
 					st := f.snap[a]
+					// the flag may belong to a later candidate (retry): only a session with no candidate after the failed one is judged
+					allStarts := w.evs(a, "c-probe-start")
+					laterCand := len(allStarts) > 0 && len(ends) > 0 && allStarts[len(allStarts)-1].Seq > ends[0].Seq
+					if laterCand || sp.Upgrade != "" {
+						st = "" // a second (conformant) candidate ran next to the scripted one: the flag may be its own
+					}
 					if strings.Contains(flagsOf(st), "U") && len(ends) > 0 && f.endAt-ends[0].T > 50*time.Millisecond {
 						l.add("not-upgrading-after-failure", "", fmt.Sprintf("%s [%s]: candidate ended at %v but the session is still marked upgrading at %v", a, ctx, ends[0].T, f.endAt))
 					}
@@ -133,7 +140,36 @@ func oracleC08(f *sessionFam, w *World, res *Result) []Violation {
 					if sp.Retry && f.endAt-time.Duration(sp.RetryAtMs)*time.Millisecond > 500*time.Millisecond {
 						if len(w.evs(a, "c-probe-start")) >= 2 && len(w.evs(a, "c-upgraded")) == 0 {
 							// the retry started but never completed
-							l.add("later-candidate-succeeds", "", fmt.Sprintf("%s [%s]: after a failed candidate (%s) a later conformant candidate did not complete", a, ctx, candScript(sp.Cand)))
+							rs := w.evs(a, "c-probe-start")
+							retryStart := rs[len(rs)-1]
+							if len(ends) == 0 || ends[0].Seq > retryStart.Seq {
+								// the scripted candidate was still being entertained when the retry came: refusing the retry is right
+								w.probe("retry_while_candidate_active")
+								continue
+							}
+							stage := "" // refused or abandoned by the server
+							handled := false
+							for _, e := range w.evs(a, "upgrading") {
+								if e.Seq > retryStart.Seq {
+									handled = true
+								}
+							}
+							refused := false
+							utLim := time.Duration(f.sc.Opts.UpgradeTimeoutMs) * time.Millisecond
+							if utLim == 0 {
+								utLim = 10 * time.Second
+							}
+							for _, e := range w.evs(a, "c-probe-failed") {
+								// closed by the server well before the upgrade timeout: refused at the gate or dropped
+								if e.Seq > retryStart.Seq && f.endAt > e.T && e.T-retryStart.T < utLim-20*time.Millisecond {
+									refused = true
+								}
+							}
+							if !handled && !refused {
+								// the retry's probe ping reached nobody (reader started before MaybeUpgrade attached its listener): the known C08 defect
+								stage = retryStart.S + "/probe-never-handled"
+							}
+							l.add("later-candidate-succeeds", stage, fmt.Sprintf("%s [%s]: after a failed candidate (%s) a later conformant candidate did not complete", a, ctx, candScript(sp.Cand)))
 						}
 					}
 				}
